@@ -6,24 +6,13 @@
    verification algorithms of RFC 9162 2.1.3.2 / 2.1.4.2).
    Guard: sizes up to 2^62 (Go uses int64; the model is unbounded).
 
-   PARTIAL.  Not proved here (validated by the correspondence run only: the extracted
-   model of CheckRecord/CheckTree and the extracted RFC 9162 transcription both reproduce the
-   implementation's verdict on every honest and mutated tuple, and the Go oracle compares
-   the implementation with an independent Go transcription of the RFC algorithms):
-
-     check_record_iff_rfc9162 : forall p t th n h, 0 <= t <= 2^62 ->
-        (check_record node_hash p t th n h = Ok tt
-         <-> rfc_verify_inclusion node_hash p t th n h = true)
-     check_tree_iff_rfc9162 : forall p t th n h, 0 <= t <= 2^62 ->
-        (check_tree node_hash p t th n h = Ok tt
-         <-> rfc_verify_consistency node_hash p t th n h = true)
-
-   What is proved instead: soundness in its semantic form (C03_check_record_sound,
-   C03_check_tree_sound: what is accepted under the true tree hash is true, or a concrete
-   collision of the node hash is exhibited), which is the property the RFC algorithms are
-   themselves meant to have; completeness; exactness of the generated proofs; no panics. *)
+   Soundness is proved in two forms: as equivalence with the standard (C03_check_record_iff_rfc9162,
+   C03_check_tree_iff_rfc9162: the checkers accept a tuple iff the iterative RFC 9162 algorithm
+   accepts it) and semantically (C03_check_record_sound, C03_check_tree_sound: whatever is
+   accepted under the true tree hash is true, or a concrete collision of the node hash is
+   exhibited). *)
 From Verif.Base Require Import Bytes.
-From Verif.Tlog Require Import Index Tree Spec6962 Rfc9162 ProofsIndex ProofsSpec ProofsTree ProofsStore ProofsRecord ProofsPath ProofsConsistency.
+From Verif.Tlog Require Import Index Tree Spec6962 Rfc9162 ProofsIndex ProofsSpec ProofsTree ProofsStore ProofsRecord ProofsPath ProofsConsistency ProofsRfcIncl ProofsRfcCons.
 
 (* ---- the specification functions are the RFC 6962 recursions ---- *)
 Theorem C03_path_is_rfc6962 : forall (node_hash : hash -> hash -> hash),
@@ -115,6 +104,31 @@ Theorem C03_check_tree_sound : forall (node_hash : hash -> hash -> hash) L p n h
    exists a b c e : hash, (a, b) <> (c, e) /\ node_hash a b = node_hash c e).
 Proof. exact check_tree_sound. Qed.
 Print Assumptions C03_check_tree_sound.
+
+(* ---- soundness as equivalence with the standard: CheckRecord / CheckTree accept a tuple iff
+   the iterative algorithm of RFC 9162 2.1.3.2 / 2.1.4.2 accepts it; hence any change of a proof
+   hash, of the length or order of the proof, of n, t, h or th is rejected unless the RFC
+   algorithm accepts the changed tuple ---- *)
+Theorem C03_check_record_iff_rfc9162 : forall (node_hash : hash -> hash -> hash) p t th n h,
+  t <= 2 ^ 63 ->
+  (check_record node_hash p t th n h = Ok tt <-> rfc_verify_inclusion node_hash p t th n h = true).
+Proof. exact check_record_iff_rfc9162. Qed.
+Print Assumptions C03_check_record_iff_rfc9162.
+
+Theorem C03_check_tree_iff_rfc9162 : forall (node_hash : hash -> hash -> hash) p t th n h,
+  t <= 2 ^ 62 ->
+  (check_tree node_hash p t th n h = Ok tt <-> rfc_verify_consistency node_hash p t th n h = true).
+Proof. exact check_tree_iff_rfc9162. Qed.
+Print Assumptions C03_check_tree_iff_rfc9162.
+
+Corollary C03_changed_tuple_rejected_unless_rfc_accepts :
+  forall (node_hash : hash -> hash -> hash) p' t' th' n' h',
+  t' <= 2 ^ 63 ->
+  rfc_verify_inclusion node_hash p' t' th' n' h' = false ->
+  check_record node_hash p' t' th' n' h' = Err EInvalidInputs \/
+  check_record node_hash p' t' th' n' h' = Err EProofFailed.
+Proof. exact check_record_rejects. Qed.
+Print Assumptions C03_changed_tuple_rejected_unless_rfc_accepts.
 
 (* ---- non-vacuity: a concrete log with a toy (injective) hash ---- *)
 Definition ex_leaf (d : str) : hash := 76 :: d.
